@@ -4,14 +4,14 @@ from __future__ import annotations
 
 import ast
 
-from sa.cfg import all_paths_pass, reachable, reaches, specialize
+from sa.cfg import all_paths_pass, reachable, reaches, specialize, test_atoms
 from sa.db import AnalysisError, bind_args, dotted, src, walk_local
 from sa.effects import Effects, fmt_effect
 from sa.flow import defs_reaching, reaching_defs
 from sa.model import contains, enclosing, execute_impl_funcs, superstep_funcs, template_classes
 from sa.variants import Variant, replace_once, sub_first, sub_once
 
-from .common import call_names, eval_bool, template_methods, vars_from_call
+from .common import call_names, eval_bool, norm_atom, template_methods, vars_from_call
 
 ID = "C18"
 EXPLANATION = (
@@ -36,6 +36,7 @@ def run(ctx) -> None:
     rep.rule("C18.R3", "each run starts from a fresh GraphState with per-instance containers", floor=5)
     rep.rule("C18.R4", "no per-run state on runner/executor objects or module-level containers", floor=8)
     rep.rule("C18.R5", "values are copied only by the two documented helpers; bind stores the very object", floor=3)
+    rep.rule("C18.R7", "a signature default never becomes a broadcast input of a mapping graph node (every item resolves and copies its own)", floor=1)
     rep.rule("C18.R6", "a mapping graph node does not hand the inner graph's own bound values to the clone path", floor=2)
 
     # ---- R1 ---------------------------------------------------------------------
@@ -140,6 +141,9 @@ def run(ctx) -> None:
 
     # ---- R6 ---------------------------------------------------------------------
     check_nested_map_inputs(ctx, "C18.R6")
+
+    # ---- R7 ---------------------------------------------------------------------
+    check_no_broadcast_defaults(ctx, "C18.R7")
 
     # ---- R2 ---------------------------------------------------------------------
     ni = db.func("runners._shared.input_normalization.normalize_inputs")
@@ -326,7 +330,48 @@ def check_nested_map_inputs(ctx, rule: str) -> None:
             raise AnalysisError(f"{q}: nested map call not found")
 
 
+def check_no_broadcast_defaults(ctx, rule: str) -> None:
+    """The inputs collected for a node are handed, for a mapping GraphNode, to the nested map as broadcast
+    values shared by all items.  A value of class DEFAULT is a fresh deep copy made *once* here; if it is
+    collected for a non-mapped parameter of a mapping node, all items share that one copy (item i sees the
+    mutations of items 0..i-1), unlike runner.map where every item's run copies its own default.  So under
+    'node is a mapping GraphNode, parameter not mapped, source is DEFAULT' the store into the collected
+    inputs must be unreachable."""
+    db, rep = ctx.db, ctx.rep
+    ci = db.func("runners._shared.helpers.collect_inputs_for_node")
+    cfg = ctx.cfg(ci)
+    stores = [n for n in cfg.nodes if n.kind == "stmt" and isinstance(n.ast, (ast.Assign, ast.Return)) and any(isinstance(c, ast.Call) and "_resolve_input" in call_names(db, c, ci) for c in ast.walk(n.ast))]
+    if not stores:
+        raise AnalysisError("collect_inputs_for_node: the resolving store was not found")
+    val: dict[str, bool] = {}
+    ldefs = db.local_defs(ci)
+    for t in cfg.nodes:
+        if t.kind != "test" or t.ast is None:
+            continue
+        for a in test_atoms(t.ast):
+            e = a
+            if isinstance(a, ast.Name) and len(ldefs.get(a.id, [])) == 1 and getattr(ldefs[a.id][0], "value", None) is not None:
+                e = ldefs[a.id][0].value
+            txt = src(e)
+            if "ValueSource.DEFAULT" in txt and isinstance(e, ast.Compare) and isinstance(e.ops[0], (ast.Eq, ast.Is)):
+                val[src(a)] = True
+            elif isinstance(e, ast.Compare) and isinstance(e.ops[0], (ast.NotIn, ast.In)) and ("map_config" in txt or "_map_over" in txt):
+                k, pos = norm_atom(e)
+                val[k] = False
+                val[src(ast.Compare(e.left, [ast.NotIn()], e.comparators))] = True
+            elif ("GraphNode" in txt and "isinstance" in txt) or "map_config" in txt or "_map_over" in txt:
+                val[src(a)] = True
+    live = reachable(cfg.entry, specialize(val, cfg)) if val else set(cfg.nodes)
+    comp_ok = True
+    for s_ in stores:
+        if any(isinstance(x, (ast.DictComp, ast.ListComp, ast.GeneratorExp)) and any(isinstance(c, ast.Call) and "_resolve_input" in call_names(db, c, ci) for c in ast.walk(x)) for x in ast.walk(s_.ast)):
+            comp_ok = False  # a comprehension over all inputs collects every parameter in one statement
+    ok = bool(val) and comp_ok and not any(s_ in live for s_ in stores if comp_ok)
+    rep.add(rule, f"{ci.qname}:no-default-as-broadcast", ok, ci.loc(), "for a mapping graph node, DEFAULT-class values of non-mapped parameters are not collected (each item's run resolves its own copy)" if ok else "a signature default resolved (and deep-copied once) here is collected for a mapping graph node as well: it is broadcast to all items, which then share one mutable object — mapped items differ from runner.map / single runs")
+
+
 VARIANTS = [
+    Variant("mapping-node-broadcasts-defaults", "src/hypergraph/runners/_shared/helpers.py", replace_once("            if source == ValueSource.DEFAULT:\n                continue\n        inputs[param] = _resolve_input", "            if source == ValueSource.DEFAULT:\n                pass\n        inputs[param] = _resolve_input"), {"C18.R7"}),
     Variant("default-not-copied-for-graphnode", HP, replace_once("    if source == ValueSource.DEFAULT:\n        return _safe_deepcopy(value, param_name=param)", "    if source == ValueSource.DEFAULT and not hasattr(node, \"_graph\"):\n        return _safe_deepcopy(value, param_name=param)"), {"C18.R1"}),
     Variant("bound-copied-too", HP, replace_once("    if source == ValueSource.DEFAULT:\n        return _safe_deepcopy(value, param_name=param)", "    if source in (ValueSource.DEFAULT, ValueSource.BOUND):\n        return _safe_deepcopy(value, param_name=param)"), {"C18.R1"}),
     Variant("shallow-copy-helper", HP, replace_once("        return copy.deepcopy(value)\n    except (TypeError, copy.Error) as e:\n        # Clear, human-friendly explanation", "        return copy.copy(value)\n    except (TypeError, copy.Error) as e:\n        # Clear, human-friendly explanation"), {"C18.R1"}),
